@@ -393,6 +393,14 @@ def unitBases (c : Cfg) (dwo : Bool) (secs : Sections) (root : Attrs) : Out Unit
     | some a => pure { u with lowPc := a }
     | none => pure u
 
+/-- `Unit::copy_relocated_attributes`: a split unit takes the relocated attributes of its skeleton
+unit — `low_pc`, `addr_base` and, before DWARF 5 (GNU split DWARF), the ranges base -/
+def copyRelocated (self other : UnitCtx) : UnitCtx :=
+  { self with
+    lowPc := other.lowPc
+    addrBase := other.addrBase
+    rnglistsBase := if self.cfg.version < 5 then other.rnglistsBase else self.rnglistsBase }
+
 /-- `Dwarf::ranges_offset_from_raw`: GNU split DWARF v4 offsets are relative to
 `DW_AT_GNU_ranges_base` (`usize::wrapping_add`) -/
 def rangesOffsetFromRaw (u : UnitCtx) (off : Nat) : Nat :=
